@@ -2,6 +2,7 @@ package props
 
 import (
 	"math/big"
+	"sort"
 	"strings"
 
 	sdkmath "cosmossdk.io/math"
@@ -25,7 +26,23 @@ var (
 // prod returns the process-wide PROD world (DESIGN.md §2.2). Cases only ever work on branches of
 // its root state, so sharing it between cases is safe.
 func prod(t testing.TB) *world.World {
-	prodOnce.Do(func() { prodW, prodErr = world.New(world.Options{}) })
+	prodOnce.Do(func() {
+		prodW, prodErr = world.New(world.Options{})
+		if prodErr == nil {
+			// every type URL the application's codec can resolve, under any interface
+			reg := prodW.Cdc.InterfaceRegistry()
+			seen := map[string]bool{}
+			for _, iface := range reg.ListAllInterfaces() {
+				for _, url := range reg.ListImplementations(iface) {
+					if !seen[url] {
+						seen[url] = true
+						kit.ExtraTypeURLs = append(kit.ExtraTypeURLs, url)
+					}
+				}
+			}
+			sort.Strings(kit.ExtraTypeURLs)
+		}
+	})
 	if prodErr != nil {
 		t.Fatalf("harness: building the PROD world failed: %v", prodErr)
 	}
